@@ -73,7 +73,8 @@ fn main() {
     let nm = |s: &str| -> N { Name::from_str(s).unwrap() };
     let names = ["Mail.Example.COM.", "a.b.", ".", "x\\065Y.z."];
     let low = |s: &str| s.to_ascii_lowercase().replace("\\065", "a");
-    let octs: [&[u8]; 4] = [b"", b"\x00", b"\xff\x00\xfe", b"0123456789abcdef0123456789abcdef"];
+    let long255 = [0xA5u8; 255];
+    let octs: [&[u8]; 5] = [b"", b"\x00", b"\xff\x00\xfe", b"0123456789abcdef0123456789abcdef", &long255];
     let mut n = 0u64;
     for a in [[0u8, 0, 0, 0], [255, 255, 255, 255], [10, 0, 0, 1]] {
         let x = A::from_octets(a[0], a[1], a[2], a[3]);
